@@ -81,6 +81,18 @@ func init() {
 		ok := s.Cmp(n) == 0 && x.Sign() >= 0 && y.Sign() >= 0 && z.Sign() >= 0 && w.Sign() >= 0
 		return fmt.Sprintf("%s %s %s %s arg=true sum=%v", showInt(x), showInt(y), showInt(z), showInt(w), ok)
 	}
+	executors["sum4-inner"] = func(o Op) string {
+		n := unhx(o["n"])
+		x, y, z, w := gabi.VerifSumFourSquaresSpecial(new(big.Int).Set(n))
+		s := new(big.Int)
+		for _, v := range []*big.Int{x, y, z, w} {
+			s.Add(s, new(big.Int).Mul(v, v))
+		}
+		if s.Cmp(n) != 0 {
+			return "wrong-sum"
+		}
+		return "ok"
+	}
 	executors["fastmod"] = func(o Op) string {
 		var m gabi.VerifFastMod
 		m.Set(unhx(o["p"]))
@@ -183,8 +195,22 @@ func emitSum4(emit func(Op), n *big.Int, class string) {
 	arg := sum4InnerArg(n)
 	res := []*big.Int{bi(0), bi(0), bi(0), bi(0)}
 	if arg.Sign() != 0 {
-		x, y, z, w := gabi.VerifSumFourSquaresSpecial(new(big.Int).Set(arg))
-		res = []*big.Int{x, y, z, w}
+		panicked := func() (p bool) {
+			defer func() {
+				if recover() != nil {
+					p = true
+				}
+			}()
+			x, y, z, w := gabi.VerifSumFourSquaresSpecial(new(big.Int).Set(arg))
+			res = []*big.Int{x, y, z, w}
+			return false
+		}()
+		if panicked {
+			// the inner routine must return for every argument it is handed: the argument is the
+			// failing input
+			emit(Op{"op": "sum4-inner", "class": class + "-inner-panics", "label": "ok", "nomodel": true, "n": hx(arg)})
+			return
+		}
 	}
 	emit(Op{"op": "sum4", "class": class, "n": hx(n), "innerArg": hx(arg), "innerRes": hxs(res)})
 }
